@@ -7,7 +7,7 @@ Theorems about the model of the deferred-error protocol (Model/IoCell.lean) and 
 `ChunkedChars` (Model/Reader.lean).
 -/
 namespace SaphyrVerif.Props.C10
-open SaphyrVerif SaphyrVerif.Scalars SaphyrVerif.Pump SaphyrVerif.Reader SaphyrVerif.IoCell SaphyrVerif.Lemmas.C10
+open SaphyrVerif SaphyrVerif.Scalars SaphyrVerif.Pump SaphyrVerif.Reader SaphyrVerif.IoCell SaphyrVerif.Lemmas.C10 SaphyrVerif.Lemmas.C09
 
 /-- (T) fault_surfaces_single.  For EVERY consumer strategy, EVERY list of parser items (no contract on
 the scanner is needed), EVERY set of fault points and every budget / alias configuration: if the shared
@@ -195,14 +195,30 @@ and then a call FAILS with a hard error (any kind other than `Interrupted`, whic
 theorem reader_fault_sets_cell (pre post : Sched) (k : IoKind) (hc : chunked pre = true)
     (hk1 : k ≠ kInterrupted) :
     (collectAll { reader := pre ++ .fail k :: post }).2.cell ≠ none := by
-  have hb : (flat pre).length < Sched.bytes (pre ++ .fail k :: post) + 1 := by
-    have : ∀ (a b : Sched), flat (a ++ b) = flat a ++ flat b := by
-      intro a b
-      induction a with
-      | nil => simp [flat]
-      | cons it rest ih => cases it <;> simp [flat, ih]
-    simp [Sched.bytes, this, flat]; omega
-  exact SaphyrVerif.Lemmas.C09.collect_fault_recorded k hk1 post _ _ pre rfl hc rfl hb
+  have happ : ∀ (a b : Sched), flat (a ++ b) = flat a ++ flat b := by
+    intro a b
+    induction a with
+    | nil => simp [flat]
+    | cons it rest ih => cases it <;> simp [flat, ih]
+  let F := 2 * Sched.bytes (pre ++ .fail k :: post) + 2
+  let cc0 : CC := { reader := pre ++ .fail k :: post }
+  have hb : (flat pre).length < F := by simp [F, Sched.bytes, happ, flat]; omega
+  have hraw := SaphyrVerif.Lemmas.C09.collect_fault_recorded k hk1 post F cc0 pre rfl hc rfl hb
+  have hlen := collectRaw_len F cc0
+  have hfin : (collectRaw F cc0).1.length < F := by
+    have : (flat cc0.reader).length = Sched.bytes (pre ++ .fail k :: post) := rfl
+    omega
+  obtain ⟨more, _, c2, _⟩ := collect_seg_general F cc0 hfin
+  have hsome : (collectRaw F cc0).2.cell.isSome = true := by
+    cases h : (collectRaw F cc0).2.cell with
+    | none => exact absurd h hraw
+    | some x => rfl
+  have := c2 hsome
+  intro hnone
+  have hr : collectAll { reader := pre ++ .fail k :: post } = collect F cc0 := rfl
+  rw [hr] at hnone
+  rw [hnone] at this
+  simp at this
 
 /-! ### regression: a reader error of kind `UnexpectedEof` (fixed by 2f20266) -/
 
@@ -219,20 +235,21 @@ theorem unexpected_eof_kind_recorded :
 
 /-! ### byte cap -/
 
-/-- (T) cap_pull_bound.  For EVERY schedule (any chunking, failing calls, empty reads) and every cap: up to
-its first `None`, `ChunkedChars` takes at most `cap + 4` bytes from its reader (general form: the bytes
+/-- (T) cap_pull_bound.  For EVERY schedule (any chunking, failing calls, empty reads) and every cap: up to the
+first `None` of `next_char` — the first time the reader glue gives up: end of input, I/O error, malformed
+sequence or the cap itself — at most `cap + 4` bytes have been taken from the reader (general form: the bytes
 pulled beyond those already accounted in `total_bytes` never exceed what the cap still allows plus one
 code point). -/
 theorem cap_pull_bound_general : ∀ (fuel : Nat) (cc : CC) (cap : Nat), cc.maxBytes = some cap → cc.totalBytes ≤ cap →
-    (collect fuel cc).2.pulled + cc.totalBytes ≤ cc.pulled + cap + 4 := by
+    (collectRaw fuel cc).2.pulled + cc.totalBytes ≤ cc.pulled + cap + 4 := by
   intro fuel
   induction fuel with
-  | zero => intro cc cap _ h; simp [collect]; omega
+  | zero => intro cc cap _ h; simp [collectRaw]; omega
   | succ fuel ih =>
     intro cc cap hm ht
     obtain ⟨h1, h2, h3⟩ := next_pull cc
-    simp only [collect]
-    cases hn : Reader.next cc with
+    simp only [collectRaw]
+    cases hn : nextChar cc with
     | mk r cc' =>
       rw [hn] at h1 h2 h3
       cases r with
@@ -241,68 +258,51 @@ theorem cap_pull_bound_general : ∀ (fuel : Nat) (cc : CC) (cap : Nat), cc.maxB
         simp only at this ⊢
         omega
       | some c =>
-        obtain ⟨n, a, b, d⟩ := h2 c rfl
+        obtain ⟨n, _, a, b, d⟩ := h2 c rfl
         have hcap := d cap hm
-        have := ih cc' cap (by rw [h1]; exact hm) hcap
+        have := ih (noteChar cc' c) cap (by simpa using h1 ▸ hm) (by simpa using hcap)
         simp only at a b this ⊢
+        simp at this
         omega
 
-theorem cap_pull_bound (sched : Sched) (cap : Nat) :
-    (collectAll { reader := sched, maxBytes := some cap }).2.pulled ≤ cap + 4 := by
-  have := cap_pull_bound_general (Sched.bytes sched + 1) { reader := sched, maxBytes := some cap } cap rfl (by simp)
-  simpa [collectAll] using this
+theorem cap_pull_bound (sched : Sched) (cap : Nat) (fuel : Nat) :
+    (collectRaw fuel { reader := sched, maxBytes := some cap }).2.pulled ≤ cap + 4 := by
+  have := cap_pull_bound_general fuel { reader := sched, maxBytes := some cap } cap rfl (by simp)
+  simpa using this
 
-/-- (T) every further call after the first `None` (the scanner's `BufferedInput` keeps calling) pulls at
-most one code point -/
-theorem pull_per_call (cc : CC) : (Reader.next cc).2.pulled ≤ cc.pulled + 4 := by
-  obtain ⟨_, h2, h3⟩ := next_pull cc
-  cases hn : (Reader.next cc).1 with
-  | none => exact h3 hn
-  | some c =>
-    obtain ⟨n, a, b, _⟩ := h2 c hn
-    -- a produced character is 1..4 bytes long: `n` is the value of `needed`
-    have : n ≤ 4 := by
-      unfold Reader.next at a b hn
-      cases h1 : readFirst cc.reader with
-      | mk r1 s1 =>
-        rw [h1] at a b hn
-        cases r1 with
-        | eof => simp at hn
-        | err k => simp at hn
-        | byte first =>
-          simp only [] at a b hn
-          cases hnd : needed first with
-          | none => simp [hnd] at hn
-          | some m =>
-            have hm := (needed_le hnd).2
-            simp only [hnd] at a b hn
-            cases hc : contLoop (m - 1) [] s1 with
-            | mk r2 s2 =>
-              rw [hc] at a b hn
-              cases r2 with
-              | eof got => simp at hn
-              | err k got => simp at hn
-              | done got =>
-                simp only [] at a b hn
-                cases hmb : cc.maxBytes with
-                | none =>
-                  simp only [hmb] at a b hn
-                  cases hd : decode1 (first :: got) with
-                  | none => simp [hd] at hn
-                  | some c' => simp [hd] at b; omega
-                | some lim =>
-                  simp only [hmb] at a b hn
-                  by_cases hl : cc.totalBytes + m > lim
-                  · simp [hl] at hn
-                  · simp only [hl, if_false] at a b hn
-                    cases hd : decode1 (first :: got) with
-                    | none => simp [hd] at hn
-                    | some c' => simp [hd] at b; omega
-    omega
+/-- (T) every call of `next` — also the calls the scanner's `BufferedInput` keeps making after the end — pulls
+at most one code point, keeps the cap setting and keeps `total_bytes` under the cap -/
+theorem pull_per_call (cc : CC) : (Reader.next cc).2.pulled ≤ cc.pulled + 4 := (next_pull' cc).2.1
+
+/-- (T) cap_pull_invariant.  Over ANY number of `next` calls (the run continues after a synthetic line break,
+fix bfd6267, so `next_char` can give up more than once): every byte pulled is accounted in `total_bytes`,
+which never exceeds the cap, or belongs to one of the at most 4-byte sequences on which `next_char` gave up:
+`pulled ≤ cap + 4 · giveUps`. -/
+theorem cap_pull_invariant (fuel : Nat) (sched : Sched) (cap : Nat) :
+    (collect fuel { reader := sched, maxBytes := some cap }).2.pulled ≤
+      cap + 4 * giveUps fuel { reader := sched, maxBytes := some cap } := by
+  have h := pull_invariant fuel { reader := sched, maxBytes := some cap }
+  have ht : ∀ (f : Nat) (cc : CC), cc.maxBytes = some cap → cc.totalBytes ≤ cap → (collect f cc).2.totalBytes ≤ cap := by
+    intro f
+    induction f with
+    | zero => intro cc _ h; simpa [collect] using h
+    | succ f ih =>
+      intro cc hm hle
+      obtain ⟨a, _, c⟩ := next_pull' cc
+      simp only [collect]
+      cases hn : Reader.next cc with
+      | mk r cc' =>
+        rw [hn] at a c
+        cases r with
+        | none => exact c cap hm hle
+        | some ch => exact ih cc' (by rw [a]; exact hm) (c cap hm hle)
+  have := ht fuel { reader := sched, maxBytes := some cap } rfl (by simp)
+  simp only at h
+  omega
 
 /-- (T) cap_inactive_below.  For EVERY schedule (faults and empty reads included) whose stream is at most
-`cap` bytes long, `ChunkedChars` with the cap produces the same characters and records the same error as
-without a cap: the cap never changes the behaviour on inputs that fit. -/
+`cap` bytes long, `ChunkedChars` with the cap produces the same characters (synthetic break included) and
+records the same error as without a cap: the cap never changes the behaviour on inputs that fit. -/
 theorem cap_inactive_below_general : ∀ (fuel : Nat) (cc : CC) (cap L : Nat), CapInv L cc → L ≤ cap →
     cc.maxBytes = some cap →
     (collect fuel cc).1 = (collect fuel { cc with maxBytes := none }).1 ∧
@@ -312,8 +312,8 @@ theorem cap_inactive_below_general : ∀ (fuel : Nat) (cc : CC) (cap L : Nat), C
   | zero => intro cc cap L _ _ _; simp [collect]
   | succ fuel ih =>
     intro cc cap L hi hL hm
-    obtain ⟨h1, h2, h3⟩ := next_cap_free cc cap L hi hL hm
-    have hmb := (next_pull { cc with maxBytes := none }).1
+    obtain ⟨h1, h2, h3⟩ := next_cap_free' cc cap L hi hL hm
+    have hmb := (next_pull' { cc with maxBytes := none }).1
     simp only [collect]
     cases hn : Reader.next cc with
     | mk r cc' =>
@@ -331,7 +331,7 @@ theorem cap_inactive_below_general : ∀ (fuel : Nat) (cc : CC) (cap L : Nat), C
           have hcc0 : { cc' with maxBytes := none } = cc0' := by
             rw [h2]
             cases cc0' with
-            | mk a b c d e => simp only at hmb; subst hmb; rfl
+            | mk a b c d e f g => simp only at hmb; subst hmb; rfl
           have := ih cc' cap L h3 hL (by rw [h2])
           rw [hcc0] at this
           exact ⟨by rw [this.1], this.2⟩
@@ -339,10 +339,16 @@ theorem cap_inactive_below_general : ∀ (fuel : Nat) (cc : CC) (cap L : Nat), C
 theorem cap_inactive_below (sched : Sched) (cap : Nat) (h : (flat sched).length ≤ cap) :
     (collectAll { reader := sched, maxBytes := some cap }).1 = (collectAll { reader := sched }).1 ∧
     (collectAll { reader := sched, maxBytes := some cap }).2.cell = (collectAll { reader := sched }).2.cell := by
-  have := cap_inactive_below_general (Sched.bytes sched + 1) { reader := sched, maxBytes := some cap } cap
+  have := cap_inactive_below_general (2 * Sched.bytes sched + 2) { reader := sched, maxBytes := some cap } cap
     (flat sched).length ⟨Nat.le_refl _, by simp⟩ h rfl
   simpa [collectAll] using this
 
+/-- (E) the cap is breached twice (`%€`, line break, `%€`; cap 3): two synthetic breaks, 9 bytes pulled
+= within `cap + 4 · giveUps` = 3 + 4·2, beyond `cap + 4` — why the bound is stated per give-up -/
+example : (collectAll { reader := [.data [0x25, 0xE2, 0x82, 0xAC, 0x0A, 0x25, 0xE2, 0x82, 0xAC]], maxBytes := some 3 }).1 =
+      ['%', '\n', '\n', '%', '\n'] ∧
+    (collectAll { reader := [.data [0x25, 0xE2, 0x82, 0xAC, 0x0A, 0x25, 0xE2, 0x82, 0xAC]], maxBytes := some 3 }).2.pulled = 9 := by
+  decide
 /-- (E) the cap is hit in the middle of `a€a` (cap 3): one character, `FileTooLarge`, 4 ≤ 3 + 4 bytes pulled -/
 example : (collectAll { reader := [.data [0x61, 0xE2, 0x82, 0xAC, 0x61]], maxBytes := some 3 }).1 = ['a'] ∧
     (collectAll { reader := [.data [0x61, 0xE2, 0x82, 0xAC, 0x61]], maxBytes := some 3 }).2.cell = some kFileTooLarge ∧
